@@ -28,7 +28,7 @@ import (
 IMPORTS
 )
 
-var verifPool = []string{"1.0.0", "1.0", "1", "01.0.0", "v1.0.0", "1.0.0+build", "1.0.0-1", "2.0.0", "1.10.0", "1.2.0", "1.9.0", "0.9", "1.0.0-alpha", "1.0.0-beta", "1.0.0-rc1", "1.0.0.rc1", "1.0a", "1.0.0_p1", "1.0.0-r1", "1:1.0", "v1.2.3", "1.2.3", "10.0", "1.0.0.0", "3",
+var verifPool = []string{"1.0.0", "1.0", "1", "01.0.0", "v1.0.0", "1.0.0+build", "1.0.0-1", "2.0.0", "1.10.0", "1.2.0", "1.9.0", "0.9", "1.0.0-alpha", "1.0.0-Beta", "1.0.0-beta", "1.0.0-ALPHA", "1.0.0-rc1", "1.0.0-RC1", "1.0.0.rc1", "1.0a", "1.0.0_p1", "1.0.0-r1", "1:1.0", "v1.2.3", "1.2.3", "10.0", "1.0.0.0", "3",
 	"1.0.0-alpha.1", "1.0.0-alpha.1.0", "1.0.0-rc.2", "1.0.0-rc.2.5", "1.0.0-alpha.beta", "1.0.0-a.b.c", "1.0.0-0", "1.0.0~rc1", "1.0.0_rc1", "1.0.0.post1", "1.0.0.dev1", "1.0.0a1", "1.0.0-SNAPSHOT", "1.0.0-sp", "1.0.0^git1", "1.0.0+b1"}
 
 func verifUnquote(line string) ([]string, bool) {
@@ -274,7 +274,7 @@ func runSortHarness(w *World) *sortResult {
 }
 
 func (w *World) sortVCs() []VC {
-	bound := "20 ecosystems x lists drawn from a pool of 41 spellings (those the ecosystem accepts): all permutations of lists of length 1..6 and of every window of five over the pool (with duplicates and Compare-equal spellings), 40 seeded shuffles of a 64-element list, an invalid input at 3 positions"
+	bound := "20 ecosystems x lists drawn from a pool of 44 spellings (letter-case variants of pre-release labels included) (those the ecosystem accepts): all permutations of lists of length 1..6 and of every window of five over the pool (with duplicates and Compare-equal spellings), 40 seeded shuffles of a 64-element list, an invalid input at 3 positions"
 	clauses := map[string]string{
 		"multiset":      "the CLI sort command prints exactly the input strings (as a multiset)",
 		"ordered":       "every adjacent pair of the printed versions is in non-decreasing order under the ecosystem's Compare",
